@@ -289,6 +289,40 @@ func TestConcChild(t *testing.T) {
 		}
 		after := atomic.LoadInt64(&got)
 		fmt.Printf("CHILD-RESULT survived second-subscriber-events-before=%d after-first-unsubscribed=%d its-channel-closed=%v\n", before, after-before, atomic.LoadInt64(&closed) == 1)
+	case mode == "idle-filter":
+		// a polling filter that is not polled for longer than the inactivity deadline while results are waiting in it, then
+		// polled late: the call must return (the filter has expired, or its results are handed over) and the API must go on
+		// serving other requests — the expiry loop, the poll and every event delivery share one mutex
+		evfilters.VerifSetFilterDeadline(250 * time.Millisecond)
+		enc := chainapp.RegisterEncodingConfig()
+		srv := startFakeWS(t)
+		cl, err := cmtjrpcclient.NewWS("tcp://"+srv.ln.Addr().String(), "/websocket")
+		require.NoError(t, err)
+		require.NoError(t, cl.Start())
+		api := evfilters.NewPublicAPI(log.NewNopLogger(), client.Context{}.WithTxConfig(enc.TxConfig), cl, filterBackendStub{})
+		id := api.NewBlockFilter()
+		time.Sleep(50 * time.Millisecond)
+		for h := 1; h <= 3; h++ {
+			srv.pushEvent(coretypes.ResultEvent{Query: headerQuery, Data: cmttypes.EventDataNewBlockHeader{Header: cmttypes.Header{Height: int64(h), ChainID: "evermint_9000-1"}}})
+		}
+		time.Sleep(900 * time.Millisecond) // three periods of the expiry loop
+		done := make(chan string, 1)
+		go func() {
+			_, err := api.GetFilterChanges(id)
+			id2 := api.NewBlockFilter()
+			api.UninstallFilter(id2)
+			if err != nil {
+				done <- "expired"
+			} else {
+				done <- "served"
+			}
+		}()
+		select {
+		case r := <-done:
+			fmt.Println("CHILD-RESULT ok late-poll=" + r)
+		case <-time.After(5 * time.Second):
+			fmt.Println("CHILD-RESULT deadlock the late poll of an idle filter (and the requests after it) never returned")
+		}
 	case mode == "api":
 		// the real PublicFilterAPI: filters of the three kinds with random criteria, polled, read and uninstalled by
 		// concurrent JSON-RPC users while events of every shape arrive — hostile ones included: transactions a proposer
@@ -647,6 +681,18 @@ func TestEngineConc(t *testing.T) {
 		}
 		if mode == "second-subscriber" && strings.Contains(res, "after-first-unsubscribed=0") {
 			p.Oracle("C20-live-subscription-dropped", "a second subscriber of a query stops receiving events when the first one unsubscribes: %s", res)
+		}
+	}
+	// ---- an idle filter with waiting results, polled after its deadline
+	{
+		res := child("idle-filter", seed)
+		p.Emit("conc idle-filter", strings.Fields(res)[0])
+		p.Count("idle-filter:" + res)
+		if strings.HasPrefix(res, "crashed") {
+			p.Oracle("C20-filter-api-crash", "the late poll of an idle filter kills the node process: %s", res)
+		}
+		if strings.HasPrefix(res, "deadlock") {
+			p.Oracle("C20-filter-api-deadlock", "idle filter: %s", res)
 		}
 	}
 	// ---- the filter API under concurrent users and hostile events
